@@ -680,6 +680,16 @@ impl ISocket for RouterSocket {
     if !self.core.is_running() {
       return Err(ZmqError::InvalidState("Socket is closing".into()));
     }
+    // A message partly read with recv(): hand out the rest of it, not the next message.
+    if let Some(rest) = self.frame_recv_buffer.lock().take() {
+      if !rest.is_empty() {
+        let mut out = FrameBatch::new();
+        for f in rest {
+          out.push(f);
+        }
+        return Ok(out);
+      }
+    }
     let rcvtimeo_opt = self.core.core_state.read().options.rcvtimeo;
     let (pipe_read_id, raw_batch) = self.recv_logical_finalized(rcvtimeo_opt).await?;
     let (identity_blob, payload) = self.process_incoming_zmtp_message(pipe_read_id, raw_batch)?;
